@@ -119,8 +119,12 @@ Fixpoint maybe_vector_get (fuel : nat) (out : list node) (obj : pw) (index : Z) 
           match znth l index with Ok e => Ok (out, Some e) | _ => Ok (out, None) end
       | PA2V arr =>
           let* at_ := node_ty_at out arr in
-          let* rt := get_type at_ index in
-          let o := if (length (dims at_) =? 1)%nat then OGet [index] else OGetSlice [SSingle index; SEllipsis] in
+          (* rank 1: Get [index]; rank > 1: GetSlice [SingleIndex(index as i64), ...], where the
+             cast reinterprets indices >= 2^63 as negative ones (counted from the end) *)
+          let si := if (length (dims at_) =? 1)%nat then index
+                    else if 2 ^ 63 <=? index then index - 2 ^ 64 else index in
+          let* rt := get_type at_ (if si <? 0 then si + hd 0 (dims at_) else si) in
+          let o := if (length (dims at_) =? 1)%nat then OGet [index] else OGetSlice [SSingle si; SEllipsis] in
           let '(out', j) := emit out (mkNode o [arr] [] [] rt) in
           Ok (out', Some (PUnknown, j))
       | PUnknown =>
